@@ -119,7 +119,8 @@ def validate(ctx, merged, prop_clause='cover'):
     items = []
     for ex in merged['extra']:
         items.extend(ex.get('traces', []))
-    if merged['counters'].get('deviations_not_kept'):
+    # deviations beyond the cap were not judged: if none of the judged ones was rejected the run cannot conclude
+    if merged['counters'].get('deviations_not_kept') and not ctx.violations:
         raise common.MachineryError('too many deviating trees to validate (%d dropped)'
                                     % merged['counters']['deviations_not_kept'])
     if not items:
